@@ -162,6 +162,10 @@ def run_sequence(ctx, elig, sym, ops_codes, conc=None):
       want = _attempt(lambda: _call(fresh(), op))
     if op in ('exhaustive_search', 'greedy_search'):
       last_search = want
+    if op == 'search_results' and want[0] == 'raises':
+      # nothing to retrieve (no search yet, or the last search rejected its
+      # input): what search_results() does then is unspecified
+      continue
     if got != want:
       bad.append('step %d %s: used object answers %s, fresh object %s' % (
           step, op, str(got)[:160], str(want)[:160]))
